@@ -11,9 +11,9 @@ Transcribed (one `def` per C++ function, strings are `List Char`, one `Char` per
 * `readInt`, `getIntParam` — `get_param_from_string<int>`  (KeyParser.cxx:669) = `istream >> int` (libstdc++, "C" locale)
 * `readIntList`, `getIntListParam` — `get_vparam_from_string<vector<int>>` (KeyParser.cxx:705) and
                          `operator>>(istream&, vector<T>&)` (src/include/stir/stream.inl:78)
-* `readStringList`, `getStringListParam` — `get_vparam_from_string<vector<string>>` (KeyParser.cxx:759), *as written*:
-                         trailing blanks of an element are not removed (`find_last_not_of(" \t", eop)` starts at the
-                         separator itself) and without a closing `}` the last non-blank character is lost.
+* `readStringList`, `getStringListParam` — `get_vparam_from_string<vector<string>>` (KeyParser.cxx:762): elements are
+                         split at `,`/`}` and trimmed of blanks and tabs at both ends; a missing closing `}` is accepted;
+                         without `{` the whole (trimmed) value is the single element.
 * `resolveAlias`       — `KeyParser::resolve_alias` (KeyParser.cxx:610); `addAlias` — `add_alias_key` (:543)
 * `findInKeymap`, `addKey` — `find_in_keymap` (:304), `add_in_keymap` (:331)
 * `parseValueInLine`   — `KeyParser::parse_value_in_line` (:862)
@@ -22,10 +22,12 @@ Transcribed (one `def` per C++ function, strings are `List Char`, one `Char` per
                          elements (the `resize` is commented out in the C++), or if `i` is negative; `key[0]`/no index on
                          a vectorised key, or an index on a plain key, are `error()`s as well.
 * `processKey`         — `KeyParser::process_key` (:1151) for the call-backs start_parsing / stop_parsing / do_nothing / set_variable
-* `getline`, `readLine` — `std::getline` + `read_line` (KeyParser.cxx:70): trailing `\r`, continuation `\`.
-                         The C++ loop does not terminate when the stream ends right after a continuation backslash
-                         (`std::getline` on a stream at EOF leaves `thisline` untouched, so the line is appended to itself
-                         for ever): that outcome is `Outcome.diverges` here.
+* `countKey`           — the `set_variable(); resize(count)` call-backs of the Interfile count keys (InterfileHeader.cxx:397-413, :453, :483;
+                         MultipleDataSetHeader.cxx:72)
+* `getline`, `readLine` — `std::getline` + `read_line` (KeyParser.cxx:70): trailing `\r`, continuation `\`; the loop
+                         stops when nothing could be read (`if (!input) break;`), so a continuation backslash as last
+                         byte of the input is simply dropped.  All loops of the model run on fuel; `Tag.diverges` /
+                         `RL.diverges` is "fuel exhausted" and is proved unreachable (`C17_parse_total`).
 * `readAndParseLine`, `parseHeader`, `parse` — KeyParser.cxx:635, :564, :262
 * `valueToStream`, `vectorisedValueToStream`, `parameterInfo` — KeyParser.cxx:1206, :1284, :1366 and
                          `operator<<(ostream&, vector<T>)` (stream.inl:62)
@@ -193,21 +195,22 @@ def getIntListParam (s : Str) : Option (List Int) :=
 
 def isBraceOrComma (c : Char) : Bool := c == '}' || c == ','
 
-/-- the `while (!end)` loop of `get_vparam_from_string<vector<string>>`; `s` is the text from `cp` on -/
+/-- the `while (!end)` loop of `get_vparam_from_string<vector<string>>`; `s` is the text from `cp` on.
+    An element runs up to the next `,` or `}` (or the end of the line) and is trimmed of trailing blanks. -/
 def readStringListAux : Nat → Str → List Str → List Str
   | 0, _, acc => acc
   | fuel + 1, s, acc =>
     match (s.dropWhile isBraceOrComma).dropWhile isBlank with
     | [] => acc
     | c :: s1 =>
+      let elem := dropEndWhile isBlank ((c :: s1).takeWhile (fun d => !isBraceOrComma d))
       match (c :: s1).dropWhile (fun d => !isBraceOrComma d) with
-      | [] => acc ++ [(dropEndWhile isBlank (c :: s1)).dropLast]
-      | _ :: t => readStringListAux fuel t (acc ++ [(c :: s1).takeWhile (fun d => !isBraceOrComma d)])
+      | [] => acc ++ [elem]
+      | _ :: t => readStringListAux fuel t (acc ++ [elem])
 
 def readStringList (s : Str) : List Str := readStringListAux (s.length + 1) s []
 
-/-- `get_vparam_from_string<std::vector<std::string>>`; takes the whole line because the non-brace branch
-    uses an absolute position as a length (`s.substr(start, s.find_last_not_of(" \t", s.size()))`) -/
+/-- `get_vparam_from_string<std::vector<std::string>>` -/
 def getStringListParam (s : Str) : Option (List Str) :=
   match afterEq s with
   | none => none
@@ -216,7 +219,7 @@ def getStringListParam (s : Str) : Option (List Str) :=
     | [] => none
     | c :: u =>
       if c == '{' then some (readStringList u)
-      else some [(c :: u).take ((dropEndWhile isBlank s).length - 1)]
+      else some [dropEndWhile isBlank (c :: u)]
 
 /-! ### keymap -/
 
@@ -345,7 +348,7 @@ def setVariable (v : Var) (p : Param) (index : Int) : Option Var :=
 inductive Tag
   | ok (b : Bool)      -- `parse` returned `b`
   | error              -- `error()` threw
-  | diverges           -- the C++ does not return
+  | diverges           -- fuel of the model exhausted (unreachable: `C17_parse_total`); the harness answers `hang` if the C++ does not return
   deriving Repr, DecidableEq, Inhabited
 
 def setEntry (m : List Entry) (kw : Str) (v : Var) : List Entry :=
@@ -372,6 +375,20 @@ def KP.keywordOf (p : KP) (line : Str) : Str := p.resolveAlias (standardise (get
 /-- one line: what `read_and_parse_line` does after the line has been read, then `process_key` -/
 def KP.parseLine (p : KP) (line : Str) : Option KP := processLine p (p.keywordOf line) line
 
+/-! ### header-declared counts -/
+
+/-- `set_variable(); table.resize(count);` — the call-back of the keys `number of dimensions`
+    (`InterfileHeader::read_matrix_info`, src/IO/InterfileHeader.cxx:397), `number of time frames` (`read_frames_info`, :453),
+    `number of energy windows` (`read_num_energy_windows`, :407), `number of image data types`
+    (`InterfileImageHeader::read_image_data_types`, :483) and `total number of data sets`
+    (`MultipleDataSetHeader::read_num_data_sets`, src/buildblock/MultipleDataSetHeader.cxx:72), for a line of that key when
+    the count variable holds `cur`: the new count and the number of elements of the table.  A line without a readable
+    `int` has "no value" and leaves the count alone; a negative count becomes a huge `size_t` and `resize` throws
+    `std::length_error` (`none`).  There is no upper limit: the table gets as many elements as the header says. -/
+def countKey (cur : Int) (line : Str) : Option (Int × Nat) :=
+  let n := (getIntParam line).getD cur
+  if n < 0 then none else some (n, n.toNat)
+
 /-! ### the stream: `std::getline`, `read_line` -/
 
 structure Stream where
@@ -382,10 +399,11 @@ structure Stream where
 
 def Stream.good (s : Stream) : Bool := !s.eof && !s.fail
 
-/-- `std::getline(input, thisline)` (libstdc++): with a stream that is not `good()` the sentry fails,
-    `failbit` is set and `thisline` is left unchanged -/
-def getline (s : Stream) (thisline : Str) : Stream × Str :=
-  if !s.good then ({ s with fail := true }, thisline)
+/-- `std::getline(input, thisline)` (libstdc++): with a stream that is not `good()` the sentry fails and `failbit` is
+    set (`thisline` is then not changed; `read_line` does not look at it in that case).  Reaching the end of the
+    stream sets `eofbit`, and `failbit` too if no character was extracted. -/
+def getline (s : Stream) : Stream × Str :=
+  if !s.good then ({ s with fail := true }, [])
   else
     let l := s.rest.takeWhile (fun c => c != '\n')
     match s.rest.dropWhile (fun c => c != '\n') with
@@ -399,28 +417,25 @@ def stripCR (l : Str) : Str :=
 
 inductive RL
   | line (l : Str) (s : Stream)
-  | diverges
+  | diverges                      -- fuel exhausted (unreachable: `readLine_total`)
   deriving Repr, DecidableEq, Inhabited
 
 /-- the `while (true)` loop of `read_line` -/
-def readLineLoop : Nat → Stream → Str → Str → RL
-  | 0, _, _, _ => .diverges
-  | fuel + 1, s, line, thisline =>
-    let wasGood := s.good
-    let (s', tl) := getline s thisline
-    let tl := stripCR tl
-    let line := line ++ tl
-    match line.getLast? with
-    | some '\\' =>
-      -- stream exhausted and `thisline` keeps ending in a backslash: the C++ loops for ever
-      if !wasGood && tl.getLast? == some '\\' then .diverges
-      else readLineLoop fuel s' line.dropLast tl
-    | _ => .line line s'
+def readLineLoop : Nat → Stream → Str → RL
+  | 0, _, _ => .diverges
+  | fuel + 1, s, line =>
+    let (s', tl) := getline s
+    if s'.fail then .line line s'                    -- `if (!input) break;`
+    else
+      let line := line ++ stripCR tl
+      match line.getLast? with
+      | some '\\' => readLineLoop fuel s' line.dropLast    -- continuation: keep on reading
+      | _ => .line line s'
 
-/-- `read_line(input, line)`; fuel: every iteration either reads from a good stream (at most `rest.length + 1`
-    times) or shortens `line` by one character -/
+/-- `read_line(input, line)`; fuel: every iteration that does not stop either consumes a line feed or reaches the end
+    of the stream, after which the next `getline` fails -/
 def readLine (s : Stream) : RL :=
-  if s.fail then .line [] s else readLineLoop (2 * s.rest.length + 4) s [] []
+  if s.fail then .line [] s else readLineLoop (s.rest.length + 2) s []
 
 /-- the line-skipping loop of `read_and_parse_line`: lines consisting of blanks only (but not empty lines) are skipped.
     `none` = `!input->good()`: "early EOF", `stop_parsing()`. -/
